@@ -76,8 +76,17 @@ def eval_tree(t, env: Dict[str, int]) -> int:
 ALPHABET = "abcXYZ019 _-+*/.,:;!?#$%&()[]{}<>=@^|~`'\"\\\n\t\ré中"
 
 
+# pieces that make escaping go wrong when it is done by sequential replacement, by greedy hex escapes or by
+# printf-style formatting: a backslash directly before an escape LETTER, control characters directly before hex
+# digits, percent signs, trigraph-like text
+TRICKY = ["\\n", "\\t", "\\r", "\\\\n", "C:\\new\\table", "\\", "\\", "n", "t", "r", "x", "b", "f", "0", "1", "a", "e", "41", '"', "'", "\n", "\t", "\r", "\x01", "\x07", "\x08", "\x0b", "\x0c",
+          "\x1b", "\x1f", "\x7f", "%s", "%d", "%%", "??/", " ", "new", "table", "u00e9", "é"]
+
+
 def gen_string(rng: random.Random) -> str:
     n = rng.choice([0, 1, 2, 5, 12])
+    if rng.random() < 0.4:
+        return "".join(rng.choice(TRICKY) for _ in range(rng.choice([1, 2, 3, 5, 8])))
     return "".join(rng.choice(ALPHABET) for _ in range(n))
 
 
@@ -233,7 +242,7 @@ def check_emission(run, drv, sc, d: str, files, consts, outs, k: int) -> None:
     ns: Dict[str, Any] = {}
     py_ok = True
     try:
-        code = "\n".join(l for l in py.splitlines() if not l.startswith("import shared") and not l.startswith("from shared"))
+        code = "\n".join(l for l in py.split("\n") if not l.startswith("import shared") and not l.startswith("from shared"))
         exec(compile(code.split("@dataclass")[0], "<py>", "exec"), ns)
     except Exception as e:
         py_ok = False
